@@ -1286,6 +1286,40 @@ impl Check for WCheck {
             plan.horizon_ms = t + 1_000;
             plan.actions.sort_by_key(|a| a.t);
         }
+        if self.prop == "C05" {
+            // classic mode, two equal links, a liveness timeout below 5 s; the receiver's SRT side
+            // stops (the links stay alive); one number goes out twice - first on the low-index
+            // link, then, re-sent, on the other - and is NAKed 3..4.5 s later
+            use crate::lsim::plan::{Action, TimedAction, hex};
+            let mut r = crate::prng::Rng::new(run_seed ^ 0xC05_57);
+            plan.cfg.classic = true;
+            plan.cfg.stall_guard = false;
+            plan.cfg.conn_timeout_ms = *r.pick(&[2_000u64, 2_500, 3_000, 5_000]);
+            plan.n_links = 2;
+            plan.links.truncate(2);
+            while plan.links.len() < 2 {
+                let l = plan.links[0].clone();
+                plan.links.push(l);
+            }
+            for l in plan.links.iter_mut() {
+                l.loss_up = 0.0;
+                l.loss_down = 0.0;
+                l.dup = 0.0;
+                l.reorder = 0.0;
+                l.jit_ms = 0;
+                l.lat_ms = 5;
+            }
+            plan.actions.clear();
+            plan.actions.push(TimedAction { t: 2_200, kind: Action::ReceiverMode { mode: "echo_only".into() } });
+            let t0 = 2_600 + r.range(0, 900);
+            plan.actions.push(TimedAction { t: t0, kind: Action::Burst { n: 1, pps: 100, size_lo: 300, size_hi: 600, stride: 1 } });
+            plan.actions.push(TimedAction { t: t0 + r.range(60, 400), kind: Action::Rexmit { back: 0, count: 1 } });
+            let seq = plan.client.start_seq & 0x7FFF_FFFF;
+            let mut b = vec![0x80u8, 0x03, 0, 0];
+            b.extend_from_slice(&seq.to_be_bytes());
+            plan.actions.push(TimedAction { t: t0 + r.range(3_000, 4_400), kind: Action::Inject { link: r.below(2) as usize, hex: hex(&b), delay: 0 } });
+            plan.horizon_ms = t0 + 7_000;
+        }
         if self.prop == "C16" || self.prop == "C17" {
             // a fast and a slow uplink under a steady stream well above the classifier's floor:
             // the slow one is starved and reported share-weak tick after tick; reloads that change
@@ -1599,6 +1633,13 @@ pub fn all() -> Vec<Box<dyn Check>> {
         let weight = if prop == "C06" { 300 } else { 6 };
         let w = Box::new(WCheck { prop, runs_quick: wq, runs_thorough: 3000 });
         v.insert(pos, Box::new(Multi { id: prop, parts: vec![first, w], weights: vec![weight, 1] }));
+    }
+    // C05: the tracker lives in the event loop: NAK attribution as the published windows show it
+    {
+        let pos = v.iter().position(|c| c.id() == "C05").unwrap();
+        let l = v.remove(pos);
+        let w = Box::new(WCheck { prop: "C05", runs_quick: 40, runs_thorough: 1500 });
+        v.insert(pos, Box::new(Multi { id: "C05", parts: vec![l, w], weights: vec![37, 1] }));
     }
     // C16: the controller lives in the event loop too: what the real loop publishes about the soft cap
     {
